@@ -102,9 +102,11 @@ class AstToDjangoQVisitor(visitor.NodeVisitor):
         full_id = owner.name + "__" + node.attr
         return F(full_id)
 
-    def visit_Null(self, node: ast.Null) -> str:
+    def visit_Null(self, node: ast.Null) -> Value:
         ":meta private:"
-        raise NotImplementedError("Should not be reached")
+        # NOTE: Comparisons to null are special cased in :func:`visit_Compare`,
+        # this is reached for nulls in other places, e.g. in a list.
+        return Value(None)
 
     def visit_Integer(self, node: ast.Integer) -> Value:
         ":meta private:"
